@@ -157,6 +157,11 @@ class ImageFormation(HoloPyObject):
         coords = {
             point_or_flat: flattened_schema.coords[point_or_flat],
             vector: ['x', 'y', 'z']}
+        if point_or_flat == 'point':
+            # detector_points carry their positions as non-index coordinates
+            coords.update({
+                key: val for key, val in flattened_schema.coords.items()
+                if key not in coords and val.dims == (point_or_flat,)})
         scattered_field = xr.DataArray(
             scattered_field, dims=[point_or_flat, vector], coords=coords,
             attrs=schema.attrs)
